@@ -312,6 +312,7 @@ static std::vector<Case> build_cases(mon::Rng& rng)
                           { "terminator-in-last-byte", SIZE - 9, "lastbyte", true } };
   // lengths around the chunk sizes of vectorised strlen/memcpy, at assorted alignments
   static std::vector<std::string> names;
+  names.reserve(32); // the cases keep pointers to these strings
   for (int L : { 7, 8, 15, 16, 17, 31, 32, 33, 63, 64, 65 }) {
     names.push_back("len" + std::to_string(L));
     scs.push_back({ names.back().c_str(), static_cast<uint64_t>(8192 + 256 * L + (L % 5)), std::string(L, static_cast<char>('a' + L % 26)), false });
